@@ -96,7 +96,8 @@ bool disk_exists(const std::string &path);
 
 // ---------------------------------------------------------------- entropy seam
 // (defined in shim.cpp; /repo calls nix_verif_entropy() when built with -DNIX_VERIF)
-void entropy_seed(uint64_t seed);
+void entropy_seed(uint64_t seed);   // also switches the simulated source on (std::random_device, getrandom, getentropy, /dev/urandom)
+void pid_set(int pid);              // simulated pid returned by getpid() (0 = real pid)
 uint64_t entropy_draws();
 
 // ---------------------------------------------------------------- HDF5 cache knob (wrap_h5f.cpp)
